@@ -135,10 +135,13 @@ static void op_init(int t, bool cbk)
 	alive[t] = true;
 	fprintf(out, "{\"e\":\"init\",\"t\":%d,\"cbk\":%s}\n", t, cbk ? "true" : "false");
 }
+static int last_rc;
 static void op_add(int t, struct spki_record *r)
 {
 	begin();
 	int rc = spki_table_add_entry(&tabs[t], r);
+
+	last_rc = rc;
 
 	vh_bput(&line, "{\"e\":\"add\",\"t\":%d,\"r\":", t);
 	put_rec(&line, r);
@@ -149,6 +152,8 @@ static void op_rm(int t, struct spki_record *r)
 {
 	begin();
 	int rc = spki_table_remove_entry(&tabs[t], r);
+
+	last_rc = rc;
 
 	vh_bput(&line, "{\"e\":\"rm\",\"t\":%d,\"r\":", t);
 	put_rec(&line, r);
@@ -334,40 +339,139 @@ static void reload_sequence(void)
 static void episode(int nops, int maxpool)
 {
 	bool up = true;
-	int size_est = 0;
+	int size = 0; /* exact size of table 1 as long as no reload / srcrm intervenes (then re-estimated) */
+	int lo, hi;
 
 	gen_pool(maxpool);
+	/* water marks: the table size oscillates between lo and hi so that the linear hash
+	 * starts growing / shrinking and is turned around half-way (resize steps are incremental) */
+	lo = vh_rn(25);
+	hi = 28 + vh_rn(npool > 40 ? npool - 28 : 12);
 	op_init(1, true);
 	for (int i = 0; i < nops; i++) {
 		int c = vh_rn(100);
-		int addp = up ? 62 : 18;
+		int addp = up ? 70 : 10;
 
 		if (c < addp) {
 			op_add(1, &pool[vh_rn(npool)]);
-			size_est++;
-		} else if (c < 80) {
+			if (last_rc == SPKI_SUCCESS)
+				size++;
+		} else if (c < 84) {
 			op_rm(1, &pool[vh_rn(npool)]);
-			if (size_est > 0)
-				size_est--;
-		} else if (c < 82) {
-			op_srcrm(1, vh_rn(3));
+			if (last_rc == SPKI_SUCCESS && size > 0)
+				size--;
 		} else if (c < 85) {
+			op_srcrm(1, vh_rn(3));
+			size = size * 2 / 3;
+		} else if (c < 87) {
 			reload_sequence();
 		} else {
 			rand_lookup(1);
 		}
-		if (vh_chance(40))
+		if (vh_chance(35))
 			rand_lookup(1);
-		if (up && size_est > npool / 2)
+		if (up && size >= hi) {
 			up = false;
-		else if (!up && size_est < 3)
+			lo = vh_rn(25);
+		} else if (!up && size <= lo) {
 			up = true;
+			hi = 28 + vh_rn(npool > 40 ? npool - 28 : 12);
+		}
 	}
 	/* final sweep: every distinct (asn, ski) of the pool and every ski */
 	for (int i = 0; i < npool && i < 40; i++)
 		op_get(1, pool[i].asn, pool_ski[i]);
 	for (int k = 0; k < nski && k < 12; k++)
 		op_ski(1, k);
+	op_reset();
+}
+
+/* Resize episode: distinct keys are added and removed in long monotone phases so that the
+ * linear hash completes a grow, starts a shrink, is turned around before the shrink has
+ * finished, etc.; the whole pool is looked up at every turning point. */
+static void resize_episode(void)
+{
+	int n = 150 + vh_rn(150);
+	bool in[MAXPOOL] = {false};
+	int size = 0;
+
+	gen_pool(n);
+	/* many distinct AS numbers, so that most buckets of the hash are populated */
+	nasn = 64;
+	for (int i = 0; i < nasn; i++)
+		if (i % 4)
+			asns[i] = vh_r32();
+	/* make the pool entries pairwise distinct: give each its own spki id */
+	npool = n;
+	for (int i = 0; i < npool; i++)
+		mk_rec(&pool[i], asns[vh_rn(nasn)], pool_ski[i] = vh_rn(nski), i, vh_rn(3));
+	op_init(1, true);
+	int phases = 4 + vh_rn(5);
+	bool up = true;
+
+	for (int ph = 0; ph < phases; ph++) {
+		/* targets are chosen relative to the table's current bucket count B (white-box guidance
+		 * of the driver only; the oracle never looks at it): grow starts above B/2 and ends at B,
+		 * shrink starts below B/8 and ends below B/16 */
+		int B = tabs[1].hashtable.bucket_max;
+		int target;
+
+		if (up) {
+			switch (vh_rn(3)) {
+			case 0:
+				target = B / 2 + 1 + vh_rn(B / 4); /* grow started, not finished */
+				break;
+			case 1:
+				target = B + vh_rn(8); /* grow finished */
+				break;
+			default:
+				target = size + 1 + vh_rn(60);
+				break;
+			}
+		} else {
+			switch (vh_rn(4)) {
+			case 0:
+			case 1:
+				target = B / 16 + 1 + vh_rn(B / 16 - 1); /* shrink started, not finished */
+				break;
+			case 2:
+				target = vh_rn(B / 16 + 1); /* shrink finished */
+				break;
+			default:
+				target = vh_rn(size + 1);
+				break;
+			}
+		}
+		if (target > npool)
+			target = npool;
+		if (target < 0 || ph == phases - 1)
+			target = 0;
+		while (size != target) {
+			int i = vh_rn(npool);
+
+			if (size < target) {
+				while (in[i])
+					i = (i + 1) % npool;
+				op_add(1, &pool[i]);
+				in[i] = true;
+				size++;
+			} else {
+				while (!in[i])
+					i = (i + 1) % npool;
+				op_rm(1, &pool[i]);
+				in[i] = false;
+				size--;
+			}
+			if (vh_chance(8))
+				rand_lookup(1);
+		}
+		for (int i = 0; i < npool; i++)
+			if (i % 3 == ph % 3 || in[i])
+				op_get(1, pool[i].asn, pool_ski[i]);
+		for (int k = 0; k < nski && k < 6; k++)
+			op_ski(1, k);
+		up = !up;
+	}
 	op_reset();
 }
 
@@ -445,6 +549,10 @@ int main(int argc, char **argv)
 		for (int e = 0; e < episodes; e++) {
 			bool big = (e % 5 == 4);
 
+			if (e % 5 == 2 || e % 5 == 0) {
+				resize_episode();
+				continue;
+			}
 			episode(big ? nops * 6 : nops, big ? maxpool : (maxpool > 30 ? 30 : maxpool));
 		}
 	} else if (!strcmp(argv[1], "script") && argc == 4) {
